@@ -4,7 +4,9 @@ re-checks — the modules of the functions the property's behaviour is built fro
 import os
 OB = '/verif/lean/obligations'
 USES = {
- 'C01': ['Slice', 'SliceFns', 'Str', 'StrFns', 'Chr', 'Bytes', 'Bytes2', 'BytesTrim', 'Chars', 'SliceIter', 'Split'],
+ 'C01': ['Slice', 'SliceFns', 'Str', 'StrFns', 'Chr', 'Bytes', 'Bytes2', 'BytesTrim', 'Chars', 'SliceIter', 'Split', 'SplitTerm', 'Array', 'CStr'],
+ 'C11': ['Array'],
+ 'C15': ['Array'],
  'C02': ['Slice', 'SliceFns', 'SliceIter'],
  'C03': ['Slice', 'Str', 'StrFns'],
  'C04': ['Slice', 'Bytes', 'Bytes2', 'StrFns', 'ParserB'],
